@@ -55,4 +55,14 @@ PROPS = {
         "open_statements": [],
         "explanation": "",
     },
+    "C11": {
+        "targets": ["Properties/C11.vo"],
+        "level_text": "proof: Unescape after EscapeString, Unquote after Quote and after EscapeIdent are the identity on every byte string; for each identifier position the library decodes what it prints to Name n (global, local, label, comdat, metadata; type names unless they look like an integer), IDs decode as IDs, a printed name is never read as an ID nor an ID as a name, distinct names print differently, and LLVM's lexer (a Coq specification of LexVar/LexUIntID) reads the same bytes -- all for names outside the stated, decidable defect classes, each of which has a _refuted theorem and is a listed known finding. Tie: in the regenerated printer bodies no name field is printed raw (theorem over Gen/Printers.v); every encoder runs through the verif hook against the extracted model on all 1-byte names, a lattice of 2-byte names and random names; names are pushed through construct/print/parse in nine identifier and nine string positions.",
+        "level_note": "trusted: Coq kernel; hand model of internal/enc and of the decoders in asm/helper.go (tied by correspondence); the llir/ll lexer is external: its acceptance of the printed token is observed by the round-trip oracle, not modelled; Model/Lexical.v is a hand-written specification of LLVM's lexer",
+        "rule": "a case is one (position, name) round trip or one encoder call; non-trivial = distinct (position, name); names are drawn from eight generators (identifier-like, digits, quotes/backslashes/escape-like, high bytes, control bytes, signed digits, arbitrary bytes) plus a fixed corpus of boundary names",
+        "trusted": ["strconv.ParseInt/ParseUint accept [+-]?[0-9]+ in range (modelled exactly, incl. the range limit)"],
+        "assumptions": ["names are non-empty and NUL-free in identifier positions (NUL only in character arrays)"],
+        "open_statements": [],
+        "explanation": "",
+    },
 }
